@@ -243,4 +243,46 @@ example : (frun [.limit 0, .send [[1], [2]], .tick 100000]).out = [.write [1]] :
 example : (frun [.limit 0, .send [[1], [2], [3]], .lost]).out = [.write [1]] := by decide
 example : (frun [.limit 0, .send [[1], [2], [3]], .resume]).out = [.write [1], .write [2], .write [3], .close] := by decide
 example : (frun [.limit 1, .send [[1], [2], [3]], .limit 0, .resume, .resume]).out = [.write [1], .write [2], .write [3], .close] := by decide
+
+theorem pump_frame (s : FSt) : (pump s).all = s.all ∧ (pump s).lost = s.lost ∧ (pump s).started = s.started := by
+  unfold pump
+  split
+  · exact ⟨rfl, rfl, rfl⟩
+  · split
+    · exact ⟨rfl, rfl, rfl⟩
+    · split <;> exact ⟨rfl, rfl, rfl⟩
+
+/-- the pieces handed over by `_send_response` never change afterwards -/
+theorem fstep_all_started (s : FSt) (e : FEv) (hs : s.started = true) : (fstep s e).all = s.all ∧ (fstep s e).started = true := by
+  cases e with
+  | send ps => simp [fstep, hs]
+  | limit k => exact ⟨rfl, hs⟩
+  | pause => exact ⟨rfl, hs⟩
+  | lost => exact ⟨rfl, hs⟩
+  | resume =>
+    have h := pump_frame { s with paused := false }
+    exact ⟨h.1, h.2.2.trans hs⟩
+  | tick dt =>
+    simp only [fstep]
+    split
+    · exact ⟨rfl, hs⟩
+    · split
+      · exact ⟨rfl, hs⟩
+      · simp [hs]
+
+theorem foldl_all_started (evs : List FEv) (s : FSt) (hs : s.started = true) : (evs.foldl fstep s).all = s.all := by
+  induction evs generalizing s with
+  | nil => rfl
+  | cons e es ih =>
+    have := fstep_all_started s e hs
+    simp only [List.foldl_cons]
+    rw [ih _ this.2, this.1]
+
+/-- a response sent on a fresh connection: whatever the transport does afterwards, `all` is that response's pieces -/
+theorem frun_send_all (ps : List Bytes) (evs : List FEv) : (frun (.send ps :: evs)).all = ps := by
+  unfold frun
+  simp only [List.foldl_cons]
+  have h := pump_frame ({ started := true, unsent := ps, all := ps, timer := none } : FSt)
+  have h1 : (fstep {} (.send ps)).started = true ∧ (fstep {} (.send ps)).all = ps := ⟨h.2.2, h.1⟩
+  rw [foldl_all_started evs _ h1.1, h1.2]
 end Srv.Flow
